@@ -130,6 +130,23 @@ def run(ctx, canary=False):
         r = ctx.tlc("dp/Bisect.tla", MODEL_CFG % n, name="Bisect_%d" % n, workers=4, coverage=(n == 64), timeout=3600)
         if r.violated:
             ctx.violation("design-level: %s violated in Bisect.tla" % r.violated, {"tlc": r.trace_text()}, {"kind": "design"})
+    # unbounded grids: Apalache discharges the inductive invariant of BisectInd.tla for EVERY N >= 2 and threshold
+    obligations = [("Init => IndInv", ["--cinit=CInit", "--init=Init", "--inv=IndInv", "--length=0"]),
+                   ("IndInv /\\ Next => IndInv'", ["--cinit=CInit", "--init=IndInit", "--inv=IndInv", "--length=1"]),
+                   ("IndInv => SoundEnd", ["--cinit=CInit", "--init=IndInit", "--inv=SoundEnd", "--length=0"])]
+    done = 0
+    for label, args in obligations:
+        v = ctx.apalache("dp/BisectInd.tla", args, name="BisectInd")
+        if v != "ok":
+            ctx.violation("design-level: Apalache refutes '%s' for the bisection (BisectInd.tla)" % label, {"obligation": label}, {"kind": "design"})
+        else:
+            done += 1
+    neg = ctx.apalache("dp/BisectInd.tla", obligations[1][1], name="BisectInd_negative_control",
+                       sed=("THEN (IF P(mid) THEN lo' = mid /\\ hi' = hi ELSE hi' = mid /\\ lo' = lo)", "THEN (IF P(mid) THEN hi' = mid /\\ lo' = lo ELSE lo' = mid /\\ hi' = hi)"))
+    if neg != "violated":
+        raise MachineryError("negative control: a bisection that moves the wrong end was not refuted by Apalache")
+    ctx.extra["apalache_inductive"] = {"module": "spec/dp/BisectInd.tla", "obligations": len(obligations), "discharged": done,
+                                       "unbounded": "grid size N >= 2 and threshold arbitrary", "negative_control": "wrong-end bisection refuted"}
     R.install_shims()
     nr, ne, nd = (400, 400, 3000) if thorough else (36, 36, 260)
     def lg(lo, hi):
